@@ -301,12 +301,22 @@ def _param_freshness(repo: Repo, m: Member, param: str) -> Optional[str]:
         return None
     out = None
     n_sites = 0
-    for caller in repo.all_members():
+    # index of `self.<name>(...)` / `cls.<name>(...)` call sites, built once per repository
+    index = getattr(repo, "_self_call_index", None)
+    if index is None:
+        index = {}
+        for caller in repo.all_members():
+            for c in ast.walk(caller.node):
+                if isinstance(c, ast.Call) and isinstance(c.func, ast.Attribute) and isinstance(c.func.value, ast.Name) and c.func.value.id in ("self", "cls"):
+                    index.setdefault(c.func.attr, []).append((caller, c))
+        repo._self_call_index = index
+    fr_cache = {}
+    for caller, c in index.get(m.name, []):
         if caller.cls is not m.cls and m.cls not in caller.cls.mro and caller.cls not in m.cls.all_subclasses():
             continue
-        fr = None
-        for c in ast.walk(caller.node):
-            if isinstance(c, ast.Call) and isinstance(c.func, ast.Attribute) and c.func.attr == m.name and isinstance(c.func.value, ast.Name) and c.func.value.id in ("self", "cls"):
+        fr = fr_cache.get(id(caller))
+        if True:
+            if True:
                 arg = None
                 if pos < len(c.args):
                     arg = c.args[pos]
@@ -316,7 +326,8 @@ def _param_freshness(repo: Repo, m: Member, param: str) -> Optional[str]:
                             arg = k.value
                 if arg is None:
                     return None
-                fr = fr or _FunctionFreshness(caller.node, caller.params)
+                if fr is None:
+                    fr = fr_cache[id(caller)] = _FunctionFreshness(caller.node, caller.params)
                 cl = fr.classify(arg)
                 out = cl if out is None else _FunctionFreshness._join(out, cl)
                 n_sites += 1
@@ -349,6 +360,17 @@ def inventory(repo: Repo) -> List[WriteSite]:
 
     for m in repo.all_members():
         fr = _FunctionFreshness(m.node, m.params, lambda n, ci=m.cls: returns_of(ci, n))
+        # a private helper that receives, at EVERY call site, an object created by its caller (a deep copy, a sub-object of
+        # one) works on a fresh object: its parameter is a fresh root, and so are the sub-objects it takes from it
+        if m.name.startswith("_") and not m.name.startswith("__") and m.kind in ("method", "staticmethod", "classmethod"):
+            seeded = [p_ for p_ in m.params if p_ not in ("self", "cls") and p_ not in fr.env and _param_freshness(repo, m, p_) == "Fresh"]
+            if seeded:
+                # start over with the fresh parameters known (the join over assignments is monotone: a class computed
+                # without that knowledge would stick)
+                fr.env = {p_: "Fresh" for p_ in seeded}
+                fr.elem_env = {}
+                fr.literal_roots = set(seeded)
+                fr._collect()
         in_init = m.name == "__init__"
 
         def add(kind: str, target: ast.AST, node: ast.AST):
